@@ -126,7 +126,7 @@ def run(ctx):
         "sequentially consistent interleaving at access granularity (weak-memory behaviours are not exhibited by the model; the memory ordering of every access site is pinned by the trace comparison)",
         "a payload is written / copied in one step (under the gate the memcpy after UnsafeCell::get runs before the next gated access); torn multi-word copies are searched only by the real-thread soak",
         "2^64 wrap-around of the generation / change counters not modelled (unbounded N); ReleaseMode::Default only (no locking of the index set)",
-        "API contract assumed by the theorems: a handle is removed at most once, recover(owner) only after the owner stopped using the container (modelled: the recovering thread is the owner's own thread)",
+        "API contract assumed by the theorems: a handle is removed at most once, recover(owner) only after the owner stopped using the container (modelled: the recovering thread is the owner's own thread); a call abandoned inside add / remove is followed by recover(owner, predicate true)",
         "tie = trace equality on the explored schedules; the gate (cargo paths override of iceoryx2-pal-concurrency-sync) is generated from /repo's current source",
     ]
 
